@@ -19,6 +19,7 @@ from hypothesis import strategies as st
 
 from vk.core import exc_site
 from vk.engine import hyp_search, parallel
+from vk.vloop import BudgetExceeded, Deadlock, run_case
 
 PROPERTY = "C39"
 LEVEL = "exploration"
@@ -28,6 +29,8 @@ RULE = (
     "colour temperature 7.600 / 9.x), Cover(position, angle, up/down with invert flags, travel completed on a patched clock), Fan(percent, steps, switch, oscillation), "
     "Climate(target temperature direct, setpoint shift 6.010 / 9.002 with steps, target temperature through a setpoint shift, on/off invert, fan speed), "
     "ClimateMode(operation / controller modes via DPT 20.x and binary objects), NumericValue(curated DPTs), Scene, RawValue, Notification; 1..3 successive calls per case; "
+    "cover_sequence: 2..3 Cover.set_position calls (covers without position address but stop / step address = timer based auto-stop, and with position address; travel times 2..60 s) "
+    "with k/8 of the running travel's time passing in between on the virtual-time loop (calculator clock = loop clock), state read after the last travel time; "
     "for half of the cases xknx.group_address_dpt holds the natural DPT of every group address of the device (5.001 scaling, 1.001 switch, 9.001 temperature, 5.010 counter, ...) "
     "and every looped-back telegram passes the queue's eager decode step (set_decoded_data) before the devices process it; "
     "non-trivial = a call whose value is not the type's zero/False/first enum member and that produced at least one telegram; distinct by (adapter, configuration, calls)"
@@ -43,6 +46,7 @@ ASSUMPTIONS = [
     "values are drawn from the accepted range of each setter (ints for integer datapoints, floats for float datapoints, within setpoint_shift_min/max and min/max temperature)",
     "for a Cover the reported position is read after the patched clock moved past the travel time",
     "for a Climate whose target temperature address is not writable only the setpoint shift is expected to follow the request",
+    "cover sequences: after the last command's travel time the cover reports the LAST requested position and is at rest; a cover positioned by timer (no position address) may be one position step off",
     "DPT 9 tolerance: half a step at the smallest exponent whose 11-bit mantissa (<= 2047) holds |value| * 100",
     "DPT 14 tolerance: float32 rounding plus half a unit of the 7th significant digit (xknx reports 4-byte floats rounded to 7 significant digits, like the ETS group monitor)",
 ]
@@ -192,7 +196,34 @@ CTRL_MODES = ["AUTO", "HEAT", "MORNING_WARMUP", "COOL", "NIGHT_PURGE", "PRECOOL"
 
 _rgb = st.tuples(_u8, _u8, _u8).map(list)
 
+_seq_pos = st.one_of(st.integers(0, 100), st.sampled_from([0, 100, 0, 100, 40, 60]))
+
+
+@st.composite
+def _cover_sequence_case(draw):
+    """Cover commands with time passing in between (timers of the Cover run on the virtual-time loop)."""
+    has_position = draw(st.sampled_from([False, False, True]))
+    stop = draw(st.booleans())
+    cfg = {
+        "position": has_position,
+        "stop": stop,
+        "step": (not stop) or draw(st.booleans()),
+        "invert_position": draw(st.booleans()),
+        "invert_updown": draw(st.booleans()),
+        "tt_down": draw(st.sampled_from([2.0, 5.0, 10.0, 25.5, 60.0])),
+        "tt_up": draw(st.sampled_from([2.0, 5.0, 10.0, 25.5, 60.0])),
+        "p0": draw(_seq_pos),
+    }
+    n = draw(st.integers(2, 3))
+    # wait after a command: k/8 of the time its travel needs (k > 8: the travel / auto-stop is over before the next command)
+    calls = [["position_then_wait", [draw(_seq_pos), draw(st.integers(0, 12))]] for _ in range(n)]
+    return {"dev": "cover_sequence", "cfg": cfg, "calls": calls}
+
+
 CASES = st.one_of(
+    _cover_sequence_case(),
+    _cover_sequence_case(),
+    _cover_sequence_case(),
     _case("switch", st.fixed_dictionaries({"invert": st.booleans()}), _calls(_onoff())),
     _case("light_switch", st.fixed_dictionaries({"mode": st.sampled_from(["switch", "color_switches", "color_brightness"])}), _calls(_onoff())),
     _case("light_brightness", st.just({}), _calls(st.tuples(st.just("brightness"), _u8))),
@@ -579,6 +610,9 @@ def oracle(ctx, case) -> None:
     from xknx.exceptions import ConversionError
 
     dev, cfg = case["dev"], case["cfg"]
+    if dev == "cover_sequence":
+        oracle_cover_sequence(ctx, case)
+        return
     clock = Clock()
     res = {"nontrivial": False, "n": 0}
 
@@ -631,6 +665,91 @@ def oracle(ctx, case) -> None:
     cls = [dev] + [f"{dev}:{k}={v}" for k, v in sorted(cfg.items()) if isinstance(v, (bool, str))]
     cls.append("group-address-dpt-table" if res.get("table") else "no-group-address-dpt-table")
     ctx.case(repr(case), nontrivial=res["nontrivial"], cls=cls, sample=case if res["nontrivial"] and len(case["calls"]) > 1 else None)
+
+
+def oracle_cover_sequence(ctx, case) -> None:
+    """Several Cover.set_position calls with virtual time in between; the last request must win."""
+    import xknx.devices.travelcalculator as tcmod
+    from xknx import XKNX
+    from xknx.devices import Cover
+    from xknx.dpt import DPTArray
+    from xknx.remote_value import RemoteValueScaling
+
+    cfg = case["cfg"]
+    res = {"nontrivial": False, "table": 0, "labels": set()}
+
+    async def scenario(loop):
+        tcmod.time = types.SimpleNamespace(time=lambda: 1000.0 + loop.time())  # calculator clock in step with the loop
+        xknx = XKNX()
+        d = Cover(
+            xknx,
+            "d",
+            group_address_long="1/1/1",
+            group_address_stop="1/1/2" if cfg["stop"] else None,
+            group_address_short="1/1/3" if cfg["step"] else None,
+            group_address_position="1/1/4" if cfg["position"] else None,
+            group_address_position_state="1/1/5",
+            invert_position=cfg["invert_position"],
+            invert_updown=cfg["invert_updown"],
+            travel_time_down=cfg["tt_down"],
+            travel_time_up=cfg["tt_up"],
+            sync_state=False,
+        )
+        xknx.devices.async_add(d)
+        if case.get("ga_dpt"):
+            table = natural_table(d)
+            xknx.group_address_dpt.set(table)
+            res["table"] = len(table)
+        try:
+            # known position from the bus
+            rf, rt = (100, 0) if cfg["invert_position"] else (0, 100)
+            incoming(xknx, "1/1/5", DPTArray(RemoteValueScaling._calc_to_knx(rf, rt, cfg["p0"])))  # noqa: SLF001
+            last = None
+            for n_call, (_setter, (pos, k)) in enumerate(case["calls"]):
+                cur = d.current_position()
+                if cur == pos and d.is_traveling():
+                    res["labels"].add("request-equals-current-estimate-while-travelling")
+                await d.set_position(pos)
+                drain(xknx)
+                last = pos
+                need = d.travelcalculator.calculate_travel_time(cur, pos) if cur is not None else 0.0
+                is_last = n_call == len(case["calls"]) - 1
+                wait = max(cfg["tt_down"], cfg["tt_up"]) + 3.0 if is_last else need * k / 8
+                if not is_last and 0 < k < 8 and need > 0:
+                    res["labels"].add("next-command-during-travel" + (":to-end-position" if case["calls"][n_call + 1][1][0] in (0, 100) else ""))
+                    res["nontrivial"] = True
+                if wait > 0:
+                    await asyncio.sleep(wait)  # virtual time: the Cover's auto-stop / periodic callback run when due
+                    drain(xknx)
+            est = d.current_position()
+            tol = 0 if cfg["position"] else 1  # timer based positioning stops within one position step
+            ok = est is not None and abs(est - last) <= tol and not d.is_traveling()
+            if not ok:
+                kind = "with-position-address" if cfg["position"] else "timer-based"
+                if "request-equals-current-estimate-while-travelling" in res["labels"]:
+                    kind += ":request-equals-current-estimate-while-travelling"  # own root cause: 'already in position' shortcut
+                raise V(f"Cover.position-sequence:{kind}", f"set_position calls {[c[1] for c in case['calls']]} from {cfg['p0']}: current_position {est!r}, is_traveling {d.is_traveling()!r} after the last travel time, last request {last}")
+        finally:
+            xknx.devices.async_remove(d)
+            xknx.task_registry.stop()
+
+    saved = tcmod.time
+    try:
+        _r, vl = run_case(scenario, max_iters=500_000)
+        for esc in vl.escaped:
+            ctx.fail(f"C39:exc:cover_sequence:task:{exc_site(esc['exception']) if esc.get('exception') is not None else 'unknown'}", case, esc.get("repr", ""))
+            break
+    except V as v:
+        ctx.fail(f"C39:loopback:{v.args[0]}", case, v.args[1])
+    except (BudgetExceeded, Deadlock):
+        ctx.notes["inconclusive"] = ctx.notes.get("inconclusive", 0) + 1
+    except Exception as e:  # noqa: BLE001
+        ctx.fail(f"C39:exc:cover_sequence:{exc_site(e)}", case, f"{e!r}")
+    finally:
+        tcmod.time = saved
+    cls = ["cover_sequence", "cover_sequence:" + ("position-address" if cfg["position"] else ("stop" if cfg["stop"] else "step-only"))] + sorted(res["labels"])
+    cls.append("group-address-dpt-table" if res.get("table") else "no-group-address-dpt-table")
+    ctx.case(repr(case), nontrivial=res["nontrivial"], cls=cls, sample=case if res["nontrivial"] else None)
 
 
 def _shard(ctx, n: int) -> None:
